@@ -215,7 +215,7 @@ CHECKS = {
  "C19": dict(
    text="Coq theorems: an accepted version is well-formed; one clause of a version constraint can fail only with ParseConstraintError / "
         "InvalidVersionError / ValueError; VersionUnion.of on ranges never trips its assertion (the complement used for != is always "
-        "defined). All eight parsers and Factory.validate are fuzzed (token-level + mutation, 2500 inputs + 600 mappings per quick run) "
+        "defined); a comma set / '||' of clauses whose parsed members are good (well-formed, proper, no local label) is defined, i.e. the asserts of intersect and VersionUnion.of are unreachable there. All eight parsers and Factory.validate are fuzzed (token-level + mutation, 2500 inputs + 600 mappings per quick run) "
         "for undocumented exceptions, hangs and unprintable values; the model must agree on accept/reject, error class and printed value.",
    design="8/C19",
    note=BASE_NOTE + "re, lark, fastjsonschema are runtime. Known finding D21s (strict-mode validation).",
